@@ -1,1 +1,146 @@
-def main : IO Unit := IO.println "stub"
+import Nsq.Model.Line
+import Nsq.Model.LookupSync
+/-! Driver for engine E6 (C16): replays the harness scripts through `Nsq.Model.LookupSync.step`
+(the model is the tree WITH fixes/F3_lookup_peer_negative_size.patch). -/
+open Nsq Nsq.Line Nsq.Model.LookupSync
+
+structure DS where
+  s : State
+  modes : List Bool        -- per peer: true = the lookupd currently answers normally
+  rKnown : List Key        -- channel keys the real nsqlookupd (last peer) has kept since its last restart
+  npeers : Nat
+
+def insertBy (lt : String → String → Bool) (x : String) : List String → List String
+  | [] => [x]
+  | y :: ys => if lt x y then x :: y :: ys else y :: insertBy lt x ys
+def sortStrs (l : List String) : List String := l.foldr (insertBy (fun a b => decide (a < b))) []
+
+def showSet (ks : List Key) : String :=
+  "{" ++ ",".intercalate (sortStrs ((ks.map (fun k => k.1 ++ "/" ++ k.2)).eraseDups)) ++ "}"
+
+/-- one outcome per configured peer, in the order of the peer list (a peer's address is its index at `reset`) -/
+def outs (d : DS) : List Outcome := d.s.peers.map (fun p => if d.modes.getD p.addr false then .ok else .fail)
+
+/-- the real nsqlookupd is the peer with the highest address -/
+def realPeer (d : DS) : Option Peer := d.s.peers.find? (fun p => p.addr + 1 == d.npeers)
+
+def stepD (d : DS) (st : Step) : DS :=
+  match step d.s st with
+  | some s' => { d with s := s' }
+  | none => d
+
+def isEph (n : String) : Bool := n.endsWith "#ephemeral"
+
+/-- process every pending notification (creation order), tracking what the real lookupd keeps -/
+def drainBag : Nat → DS → DS
+  | 0, d => d
+  | fuel + 1, d =>
+    match d.s.bag.getLast? with
+    | none => d
+    | some r =>
+      let realUp := match realPeer d with
+        | some p => d.modes.getLast?.getD false && p.conn != .stale
+        | none => false
+      let dead := d.s.dead.contains r
+      let d1 := stepD d (.notify r (outs d))
+      -- the real lookupd keeps channel keys after UNREGISTER (unless ephemeral); a reconnect re-registers everything
+      let reg := ((realPeer d1).map (·.regs)).getD []
+      let known := (d1.rKnown ++ reg.filter (fun k => k.2 != "")).eraseDups
+      let known := if dead && realUp && isEph r.chan then known.filter (· != r.key) else known
+      drainBag fuel { d1 with rKnown := known }
+
+def findRef (d : DS) (t c : String) : Option Ref := d.s.objs.find? (fun r => r.topic == t && r.chan == c)
+
+def createChan (d : DS) (t c : String) : DS :=
+  if (findRef d t c).isSome then d else drainBag 8 (stepD d (.createChan t c))
+
+def createTopic (d : DS) (t : String) : DS :=
+  if (findRef d t "").isSome then d else
+  let d1 := drainBag 8 (stepD d (.createTopic t))
+  -- GetTopic: blocking query of the lookupds for channels to pre-create (only the real one keeps keys)
+  let pre := precreate [ (d.rKnown.filter (fun k => k.1 == t)).map (·.2) ]
+  pre.foldl (fun acc c => createChan acc t c) d1
+
+def ticks (d : DS) : DS :=
+  let d1 := stepD (stepD (stepD d (.tick (outs d))) (.tick (outs d))) (.tick (outs d))
+  let reg := ((realPeer d1).map (·.regs)).getD []
+  { d1 with rKnown := (d1.rKnown ++ reg.filter (fun k => k.2 != "")).eraseDups }
+
+def probe (d : DS) : DS :=
+  createChan (createTopic d "probe#ephemeral") "probe#ephemeral" "p#ephemeral"
+
+def peerName (d : DS) (i : Nat) : String := if i + 1 == d.npeers then "R" else s!"L{i}"
+
+def viewLine (d : DS) : String :=
+  let want := showSet (d.s.objs.map Ref.key)
+  let vs := (List.range d.npeers).map (fun i =>
+    peerName d i ++ "=" ++ (match d.s.peers.find? (fun p => p.addr == i) with
+      | some p => if p.conn == .up then showSet p.regs else "down"
+      | none => "down"))
+  "want=" ++ want ++ " " ++ " ".intercalate vs
+
+def setMode (d : DS) (i : Nat) (ok : Bool) : DS :=
+  { d with modes := (List.range d.modes.length).zip d.modes |>.map (fun (j, m) => if j == i then ok else m) }
+
+def peerIdx (d : DS) (n : String) : Nat := if n == "R" then d.npeers - 1 else (n.drop 1).toNat!
+
+def hexBytes (s : String) : Option (List UInt8) := unhex s
+
+def stepLine (d : DS) (line : String) : DS × String :=
+  match words line with
+  | ["reset", n] =>
+    let k := n.toNat!
+    let s := (List.range k).foldl (fun s a => (step s (.addPeer a .ok)).getD s) State.init
+    ({ s := s, modes := List.replicate k true, rKnown := [], npeers := k }, "ok")
+  | ["createtopic", t] => (createTopic d t, "ok")
+  | ["createchan", t, c] => (createChan (createTopic d t) t c, "ok")
+  | ["deletetopic", t] =>
+    match findRef d t "" with
+    | none => (d, "notfound")
+    | some r =>
+      let cs := d.s.objs.filter (fun x => x.topic == t && x.chan != "")
+      let d1 := stepD d (.delBegin r)
+      let d2 := cs.foldl (fun acc c => stepD (stepD acc (.delBegin c)) (.delUnlink c)) d1
+      (drainBag 16 (stepD d2 (.delUnlink r)), "ok")
+  | ["deletechan", t, c] =>
+    match findRef d t c with
+    | none => (d, "notfound")
+    | some r => (drainBag 8 (stepD (stepD d (.delBegin r)) (.delUnlink r)), "ok")
+  | "fault" :: n :: _ => (probe (setMode d (peerIdx d n) false), "ok")
+  | ["heal", n] => (setMode d (peerIdx d n) true, "ok")
+  | ["restart", n] =>
+    let i := peerIdx d n
+    let d1 := stepD d (.lookupdDrop i)
+    let d2 := if n == "R" then { d1 with rKnown := [] } else d1
+    (probe d2, "ok")
+  | "hook" :: _ => (d, "ok")
+  | ["removepeer", n] => (stepD d (.removePeer (peerIdx d n)), "ok")
+  | ["addpeer", n] =>
+    let i := peerIdx d n
+    (stepD d (.addPeer i (if d.modes.getD i false then .ok else .fail)), "ok")
+  | ["drop", n] => (stepD d (.lookupdDrop (peerIdx d n)), "ok")
+  | ["settle"] => let d1 := ticks d; (d1, viewLine d1)
+  | ["read", limit, hex] =>
+    match limit.toInt?, hexBytes hex with
+    | some l, some b =>
+      (d, match readResponse true l b with
+          | .ok body => "ok " ++ Nsq.Line.hex body
+          | .err => "err"
+          | .panic => "panic")
+    | _, _ => (d, "bad-op")
+  | ["precreate", a, b] =>
+    let pre := precreate [a.splitOn ",", b.splitOn ","]
+    (d, showSet (pre.map (fun c => (c, ""))))
+  | _ => (d, "bad-op")
+
+partial def loop (h : IO.FS.Stream) (out : IO.FS.Stream) (d : DS) : IO Unit := do
+  let line ← h.getLine
+  if line.isEmpty then return ()
+  let (d', o) := stepLine d (line.dropRightWhile (· == '\n'))
+  out.putStrLn o
+  loop h out d'
+
+def main : IO Unit := do
+  let out ← IO.getStdout
+  loop (← IO.getStdin) out { s := State.init, modes := [], rKnown := [], npeers := 0 }
+  out.flush
